@@ -616,9 +616,9 @@ func runSelftest(prop string) map[string]any {
 	}
 	total, detected := 0, 0
 	var silent []string
-	for _, line := range strings.Split(string(data), "\n") {
-		line = strings.TrimSpace(line)
-		if line == "" || strings.HasPrefix(line, "#") {
+	for _, line := range strings.Split(string(data), "\n----\n") {
+		line = strings.Trim(line, "\n")
+		if strings.TrimSpace(line) == "" || strings.HasPrefix(line, "#") {
 			continue
 		}
 		parts := strings.SplitN(line, "@@", 4)
